@@ -161,6 +161,7 @@ class Rules:
             self.r_macrosep(I, seg)
             self.r_payload_escape(I, seg)
             self.r_mark_provenance(I, seg)
+            self.r_expect_survives(I, seg)
 
     # -- R-NONEMPTY and R-ERR-PAIR ---------------------------------------------------------------
     MAY_BE_EMPTY = {"EOF", "MacroSep", "MacroStringEmpty", "SEMI", "LPAREN", "RPAREN", "ASSIGN", "COMMA", "FSLASH",
@@ -480,6 +481,32 @@ class Rules:
              "the returned position triple is one cursor snapshot with the line current at that moment" if ok else
              "%s returns a token position whose parts do not belong together: %s; a token emitted at this mark gets a wrong line / "
              "column once a line feed was consumed since the token start" % (short_fn(seg.name), why))
+
+    # -- R-EXPECT-SURVIVES: a pending expectation mode is never thrown away by a stack truncation -------------------
+    def r_expect_survives(self, I, seg):
+        """ExpectSymbol / ExpectSemiOrEOF on the mode stack are obligations to diagnose a missing delimiter.  They
+        leave the stack through their own handler only; a rollback (mode_stack.truncate) that removes one silently
+        drops the diagnosis."""
+        for e in seg.events[seg.start:]:
+            if e.kind != "stack_truncate" or e.fn != seg.name:
+                continue
+            removed = e.d.get("removed")
+            key = "%s|truncate" % short_fn(e.d.get("owner") or seg.name)
+            self.bump("R-EXPECT-SURVIVES", "truncations", key)
+            if removed is None:
+                continue
+            lost = [m.variant for m in removed if isinstance(m, Enum) and m.variant in ("ExpectSymbol", "ExpectSemiOrEOF")]
+            what = []
+            for m in removed:
+                if isinstance(m, Enum) and m.variant == "ExpectSymbol":
+                    what.append(abstract_mode(I, seg.st, m))
+                elif isinstance(m, Enum) and m.variant == "ExpectSemiOrEOF":
+                    what.append("Semi")
+            I.ob("R-EXPECT-SURVIVES", key, not lost, self.sites.where(e),
+                 "the truncation removes no pending expectation mode" if not lost else
+                 "the mode-stack truncation (rollback) discards pending expectation mode(s) %s that were put on the stack after the "
+                 "checkpoint was taken: the missing delimiter will not be diagnosed; removed modes (bottom..top): %s; conditions: %s"
+                 % (what, [getattr(m, "variant", "?") for m in removed], "; ".join(seg.st.conds[-4:])[:200]))
 
     # -- R-SPEC-PURITY: no diagnostics while a checkpoint is live ------------------------------------
     def r_spec_purity(self, I, seg):
